@@ -1,0 +1,168 @@
+//! Verification hooks (cargo feature `verif-hooks`, off by default).
+//!
+//! These hooks let an external test harness act as a *dishonest prover*: a
+//! thread-local plan maps the index of an advice assignment (counted in the
+//! order in which `Region::assign_advice` evaluates its value closure) to a
+//! fault that is applied to the value before it is stored in the table *and*
+//! in the returned `AssignedCell`, so that the library's own witness
+//! generation propagates the faulted value.
+//!
+//! Nothing in this module is compiled unless the feature is enabled.
+#![allow(unsafe_code)]
+
+use std::{any::Any, cell::RefCell, collections::HashMap};
+
+use ff::Field;
+
+use super::Value;
+
+/// A fault applied to a native advice assignment.
+#[derive(Clone, Copy, Debug, PartialEq, Eq)]
+pub enum Fault<F> {
+    /// Replace the value by the given one.
+    Set(F),
+    /// Add the given constant to the value.
+    Add(F),
+    /// Replace `v` by `1 - v`.
+    OneMinus,
+}
+
+impl<F: Field> Fault<F> {
+    fn apply(&self, v: F) -> F {
+        match self {
+            Fault::Set(x) => *x,
+            Fault::Add(x) => v + *x,
+            Fault::OneMinus => F::ONE - v,
+        }
+    }
+}
+
+/// A record of one native advice assignment.
+#[derive(Clone, Debug)]
+pub struct AssignRecord {
+    /// Index of the assignment (order of evaluation of value closures).
+    pub index: usize,
+    /// Index of the advice column.
+    pub column: usize,
+    /// Offset relative to the region.
+    pub offset: usize,
+    /// Absolute row, when the backend reported it (MockProver does).
+    pub abs_row: Option<usize>,
+    /// Whether the assigned value was known.
+    pub known: bool,
+    /// Whether a fault of the plan was applied to this assignment.
+    pub faulted: bool,
+}
+
+/// What was observed between `begin` and `end`.
+#[derive(Clone, Debug, Default)]
+pub struct Report {
+    /// All native advice assignments, in order.
+    pub log: Vec<AssignRecord>,
+}
+
+#[derive(Default)]
+struct State {
+    enabled: bool,
+    plan: Option<Box<dyn Any>>,
+    log: Vec<AssignRecord>,
+    pending: Option<usize>,
+}
+
+thread_local! {
+    static STATE: RefCell<State> = RefCell::new(State::default());
+}
+
+/// Starts recording native advice assignments on this thread and installs the
+/// given fault plan (assignment index -> fault). Resets the counter.
+pub fn begin<F: Field>(plan: HashMap<usize, Fault<F>>) {
+    STATE.with(|s| {
+        let mut s = s.borrow_mut();
+        s.enabled = true;
+        s.plan = Some(Box::new(plan));
+        s.log.clear();
+        s.pending = None;
+    })
+}
+
+/// Stops recording and returns what was observed.
+pub fn end() -> Report {
+    STATE.with(|s| {
+        let mut s = s.borrow_mut();
+        s.enabled = false;
+        s.plan = None;
+        s.pending = None;
+        Report {
+            log: std::mem::take(&mut s.log),
+        }
+    })
+}
+
+fn same_type<A, B>() -> bool {
+    core::any::type_name::<A>() == core::any::type_name::<B>()
+        && core::mem::size_of::<A>() == core::mem::size_of::<B>()
+        && core::mem::align_of::<A>() == core::mem::align_of::<B>()
+}
+
+/// Called by `Region::assign_advice` on the value produced by the caller's
+/// closure. Identity unless recording is enabled and `VR` is the field `F`.
+pub fn on_assign_advice<F: Field, VR>(column: usize, offset: usize, v: Value<VR>) -> Value<VR> {
+    let enabled = STATE.with(|s| s.borrow().enabled);
+    if !enabled || !same_type::<F, VR>() {
+        return v;
+    }
+    // SAFETY: `VR` and `F` are the same type (checked above), so `Value<VR>`
+    // and `Value<F>` are the same type as well.
+    let vf: Value<F> = unsafe {
+        let r = core::mem::transmute_copy::<Value<VR>, Value<F>>(&v);
+        core::mem::forget(v);
+        r
+    };
+    let out = STATE.with(|s| {
+        let mut s = s.borrow_mut();
+        let index = s.log.len();
+        let fault = s
+            .plan
+            .as_ref()
+            .and_then(|p| p.downcast_ref::<HashMap<usize, Fault<F>>>())
+            .and_then(|p| p.get(&index).copied());
+        let mut known = false;
+        vf.map(|_| known = true);
+        let out = match fault {
+            Some(f) => vf.map(|x| f.apply(x)),
+            None => vf,
+        };
+        s.log.push(AssignRecord {
+            index,
+            column,
+            offset,
+            abs_row: None,
+            known,
+            faulted: fault.is_some() && known,
+        });
+        s.pending = Some(index);
+        out
+    });
+    // SAFETY: same types, see above.
+    unsafe {
+        core::mem::transmute_copy::<Value<F>, Value<VR>>(&out)
+    }
+}
+
+/// Called by `MockProver::assign_advice` after the value closure has been
+/// evaluated: associates the absolute cell with the assignment just recorded.
+pub fn note_cell(column: usize, row: usize) {
+    STATE.with(|s| {
+        let mut s = s.borrow_mut();
+        if !s.enabled {
+            return;
+        }
+        if let Some(i) = s.pending.take() {
+            if let Some(rec) = s.log.get_mut(i) {
+                if rec.column == column {
+                    rec.abs_row = Some(row);
+                }
+            }
+        }
+    })
+}
